@@ -92,12 +92,12 @@ End SpecFacts.
 
 (** * Stable sort *)
 Section SortFacts.
-Context {A : Type} (key : A -> str).
+Context {A : Type} (key : A -> list Z).
 
 Lemma insert_by_perm x l : Permutation (insert_by key x l) (x :: l).
 Proof.
   induction l as [|y l IH]; cbn; [reflexivity|].
-  destruct (str_leb (key x) (key y)); [reflexivity|].
+  destruct (zs_leb (key x) (key y)); [reflexivity|].
   rewrite IH. apply perm_swap.
 Qed.
 
@@ -105,16 +105,80 @@ Lemma sort_by_perm l : Permutation (sort_by key l) l.
 Proof.
   induction l as [|x l IH]; cbn; [reflexivity|]. rewrite insert_by_perm. now constructor.
 Qed.
+
+(** the order on key values is reflexive and total *)
+Lemma zs_leb_refl a : zs_leb a a = true.
+Proof. induction a as [|x a IH]; cbn; [reflexivity|]. now rewrite Z.ltb_irrefl. Qed.
+
+Lemma zs_leb_total a : forall b, zs_leb a b = false -> zs_leb b a = true.
+Proof.
+  induction a as [|x a IH]; intros [|y b]; cbn; try discriminate; try reflexivity.
+  destruct (x <? y)%Z eqn:E1; [discriminate|]. destruct (y <? x)%Z eqn:E2; [reflexivity|]. apply IH.
+Qed.
+
+Lemma zs_leb_trans a : forall b c, zs_leb a b = true -> zs_leb b c = true -> zs_leb a c = true.
+Proof.
+  induction a as [|x a IH]; intros [|y b] [|z c]; cbn; try discriminate; try reflexivity.
+  destruct (x <? y)%Z eqn:E1.
+  - intros _. destruct (y <? z)%Z eqn:E2.
+    + intros _. apply Z.ltb_lt in E1, E2. assert (x <? z = true)%Z as -> by (apply Z.ltb_lt; lia). reflexivity.
+    + destruct (z <? y)%Z eqn:E3; [discriminate|]. intros _.
+      apply Z.ltb_lt in E1. apply Z.ltb_ge in E2, E3.
+      assert (x <? z = true)%Z as -> by (apply Z.ltb_lt; lia). reflexivity.
+  - destruct (y <? x)%Z eqn:E2; [discriminate|]. intros H1.
+    apply Z.ltb_ge in E1, E2. assert (x = y) by lia. subst y.
+    destruct (x <? z)%Z; [reflexivity|]. destruct (z <? x)%Z; [discriminate|]. now apply IH.
+Qed.
+
+Lemma zs_eqb_eq a b : zs_eqb a b = true <-> a = b.
+Proof. apply list_eqb_eq. intros; apply Z.eqb_eq. Qed.
+
+(** the output is in non-decreasing key order *)
+Definition key_le (x y : A) : Prop := zs_leb (key x) (key y) = true.
+
+Lemma insert_by_sorted x l :
+  Sorted.StronglySorted key_le l -> Sorted.StronglySorted key_le (insert_by key x l).
+Proof.
+  induction 1 as [|y l Hs IH Hy]; cbn; [repeat constructor|].
+  destruct (zs_leb (key x) (key y)) eqn:E.
+  - constructor; [now constructor|]. constructor; [exact E|].
+    rewrite Forall_forall in *. intros z Hz. eapply zs_leb_trans; [exact E|now apply Hy].
+  - constructor; [exact IH|]. apply zs_leb_total in E.
+    rewrite Forall_forall in *. intros z Hz.
+    apply (Permutation_in _ (insert_by_perm x l)) in Hz. destruct Hz as [<-|Hz]; [exact E|now apply Hy].
+Qed.
+
+Lemma sort_by_sorted l : Sorted.StronglySorted key_le (sort_by key l).
+Proof. induction l as [|x l IH]; cbn; [constructor|now apply insert_by_sorted]. Qed.
+
+(** stability: the elements with any given key value keep their relative order *)
+Lemma insert_by_filter k x l :
+  filter (fun y => zs_eqb (key y) k) (insert_by key x l) = filter (fun y => zs_eqb (key y) k) (x :: l).
+Proof.
+  induction l as [|y l IH]; [reflexivity|]. cbn [insert_by].
+  destruct (zs_leb (key x) (key y)) eqn:E; [reflexivity|].
+  cbn [filter] in *. rewrite IH.
+  destruct (zs_eqb (key x) k) eqn:Ex; [|reflexivity].
+  destruct (zs_eqb (key y) k) eqn:Ey; [|reflexivity].
+  apply zs_eqb_eq in Ex, Ey. rewrite Ex, Ey, zs_leb_refl in E. discriminate.
+Qed.
+
+Lemma sort_by_stable k l :
+  filter (fun y => zs_eqb (key y) k) (sort_by key l) = filter (fun y => zs_eqb (key y) k) l.
+Proof.
+  induction l as [|x l IH]; [reflexivity|]. cbn [sort_by]. rewrite insert_by_filter.
+  cbn [filter]. now rewrite IH.
+Qed.
 End SortFacts.
 
-Lemma insert_by_map {A B} (f : A -> B) (key : B -> str) x l :
+Lemma insert_by_map {A B} (f : A -> B) (key : B -> list Z) x l :
   insert_by key (f x) (map f l) = map f (insert_by (fun a => key (f a)) x l).
 Proof.
   induction l as [|y l IH]; cbn; [reflexivity|].
-  destruct (str_leb (key (f x)) (key (f y))); cbn; [reflexivity|]. now rewrite IH.
+  destruct (zs_leb (key (f x)) (key (f y))); cbn; [reflexivity|]. now rewrite IH.
 Qed.
 
-Lemma sort_by_map {A B} (f : A -> B) (key : B -> str) l :
+Lemma sort_by_map {A B} (f : A -> B) (key : B -> list Z) l :
   sort_by key (map f l) = map f (sort_by (fun a => key (f a)) l).
 Proof. induction l as [|x l IH]; cbn; [reflexivity|]. now rewrite IH, insert_by_map. Qed.
 
@@ -679,26 +743,28 @@ Proof.
   f_equal. apply IH. lia.
 Qed.
 
-Lemma d_sort_spec h d C :
+Definition skI (sk : sortkey) (p : str * str) : list Z := sort_key lower sk (fst p).
+
+Lemma d_sort_spec h d C sk :
   d_rep h d C ->
   exists h' d' C',
-    d_sort_fields lower (h, d) = (Ok tt, (h', d'))
-    /\ d_rep h' d' C' /\ d_post h C h' C' /\ its C' = sort_by keyI (its C).
+    d_sort_fields lower sk (h, d) = (Ok tt, (h', d'))
+    /\ d_rep h' d' C' /\ d_post h C h' C' /\ its C' = sort_by (skI sk) (its C).
 Proof.
   intros R. pose proof (d_rep_keys _ _ _ R) as K. rewrite <- keys_its in K. pose proof R as [RO V N Va].
   set (ks := map fst (its C)).
-  assert (Hsorted : sort_by lower ks = map fst (sort_by keyI (its C))).
+  assert (Hsorted : sort_by (sort_key lower sk) ks = map fst (sort_by (skI sk) (its C))).
   { unfold ks. now rewrite sort_by_map. }
-  assert (Hnd : NoDup (map keyL [] ++ map lower (sort_by lower ks))).
+  assert (Hnd : NoDup (map keyL [] ++ map lower (sort_by (sort_key lower sk) ks))).
   { cbn [map app]. eapply Permutation_NoDup; [|exact K].
     replace (map keyI (its C)) with (map lower ks) by (unfold ks; rewrite map_map; reflexivity).
     apply Permutation_map. symmetry. apply sort_by_perm. }
-  destruct (os_extend_spec lower (sort_by lower ks) h os_empty [] (os_rep_empty lower h) Hnd)
+  destruct (os_extend_spec lower (sort_by (sort_key lower sk) ks) h os_empty [] (os_rep_empty lower h) Hnd)
     as [h' [set' [L2 [E [R2 [M2 [F2 B2]]]]]]].
   cbn [app] in R2.
-  assert (Hlen : length (map fst L2) = length (sort_by keyI (its C))).
+  assert (Hlen : length (map fst L2) = length (sort_by (skI sk) (its C))).
   { rewrite map_length. rewrite <- (map_length snd L2), M2, Hsorted. now rewrite map_length. }
-  exists h', (mkD set' (d_vals d)), (combine (map fst L2) (sort_by keyI (its C))).
+  exists h', (mkD set' (d_vals d)), (combine (map fst L2) (sort_by (skI sk) (its C))).
   split.
   { unfold d_sort_fields. rewrite (mbind_ok _ _ _ _ _ (d_iter_spec _ _ _ R)). cbn [fst snd].
     fold ks. rewrite E. reflexivity. }
@@ -715,9 +781,10 @@ Proof.
   - now apply its_combine.
 Qed.
 
-Lemma sim_sort h d C o : d_rep h d C -> d_sim h d C (d_sort_fields lower) (fun _ => RNone) (OSort o).
+Lemma sim_sort h d C o sk :
+  d_rep h d C -> d_sim h d C (d_sort_fields lower sk) (fun _ => RNone) (OSort o sk).
 Proof.
-  intros R. destruct (d_sort_spec _ _ _ R) as [h' [d' [C' [E [R' [P S]]]]]].
+  intros R. destruct (d_sort_spec _ _ _ sk R) as [h' [d' [C' [E [R' [P S]]]]]].
   exists (Ok tt), h', d', C'. split; [exact E|]. split; [exact R'|]. split; [exact P|].
   cbn [s_step1 out_of]. now rewrite S.
 Qed.
